@@ -1,3 +1,4 @@
 pub mod func;
 pub mod inst;
 pub mod mps_text;
+pub mod qplib_text;
